@@ -74,16 +74,32 @@ impl CompressedReader {
     }
 }
 
+/// The decoders stop reading as soon as the coded stream is complete. Before the end of the body is reported, the rest of
+/// the message framing is read as well, so that a body whose framing is cut short (octets promised by `Content-Length`
+/// that never arrive, a missing last chunk) is an error like it is for a body that is not compressed.
+#[cfg(feature = "flate2")]
+fn finish_framing(n: usize, buf: &[u8], body: &mut BodyReader) -> io::Result<usize> {
+    if n == 0 && !buf.is_empty() {
+        io::copy(body, &mut io::sink())?;
+    }
+    Ok(n)
+}
+
 impl Read for CompressedReader {
     #[inline]
     fn read(&mut self, buf: &mut [u8]) -> io::Result<usize> {
-        // TODO: gzip does not read until EOF, leaving some data in the buffer.
         match self {
             CompressedReader::Plain(s) => s.read(buf),
             #[cfg(feature = "flate2")]
-            CompressedReader::Deflate(s) => s.read(buf),
+            CompressedReader::Deflate(s) => {
+                let n = s.read(buf)?;
+                finish_framing(n, buf, s.get_mut())
+            }
             #[cfg(feature = "flate2")]
-            CompressedReader::Gzip(s) => s.read(buf),
+            CompressedReader::Gzip(s) => {
+                let n = s.read(buf)?;
+                finish_framing(n, buf, s.get_mut())
+            }
         }
     }
 }
